@@ -100,6 +100,7 @@ impl<'a> Run<'a> {
             else if rr.alg != want.alg { "alg" }
             else if want.time != u64::MAX && rr.time != want.time { "time" }
             else if want.time != u64::MAX && rr.fudge != want.fudge { "fudge" }
+            else if rr.x.cls != want.x.cls || rr.x.ttl != want.x.ttl { "class" }
             else if rr.oid != want.oid { "oid" }
             else if rr.err != want.err { "err" }
             else if rr.other != want.other { "other" }
@@ -151,7 +152,7 @@ impl<'a> Run<'a> {
                     return json!({"res": "PushError"});
                 }
                 let wire = bld.finish();
-                let want = TsigRr { name: name_wire(KEYNAME_C), alg: alg_wire(&alg), time: op["now"].as_u64().unwrap(),
+                let want = TsigRr { x: Shape::default(), name: name_wire(KEYNAME_C), alg: alg_wire(&alg), time: op["now"].as_u64().unwrap(),
                                     fudge, mac: vec![], oid: id, err: 0, other: vec![] };
                 let obs = self.signed_obs(op, &pre, &wire, &want);
                 self.net.clear();       // composed again: replaces the request in flight
@@ -218,14 +219,14 @@ impl<'a> Run<'a> {
                     // the request's TSIG could not be located: nothing to mirror
                     return json!({"res": "NoPanic"});
                 }
-                let rq = self.req_rr.clone().unwrap_or(TsigRr { name: vec![], alg: vec![], time: 0, fudge: 0, mac: vec![], oid: 0, err: 0, other: vec![] });
+                let rq = self.req_rr.clone().unwrap_or(TsigRr { x: Shape::default(), name: vec![], alg: vec![], time: 0, fudge: 0, mac: vec![], oid: 0, err: 0, other: vec![] });
                 let want = if self.s_res == "BADTIME" {
-                    TsigRr { name: name_wire(KEYNAME_S), alg: alg_wire(&alg), time: rq.time, fudge: rq.fudge, mac: vec![],
+                    TsigRr { x: Shape::default(), name: name_wire(KEYNAME_S), alg: alg_wire(&alg), time: rq.time, fudge: rq.fudge, mac: vec![],
                              oid: rid, err: 18, other: u48(self.s_now).to_vec() }
                 } else {
                     let code = match self.s_res.as_str() { "BADSIG" => 16, "BADKEY" => 17, "BADTRUNC" => 22, _ => 1 };
                     // RFC 8945 5.3.2 does not say which times an unsigned error carries: not compared
-                    TsigRr { name: rq.name.clone(), alg: rq.alg.clone(), time: u64::MAX, fudge: 0, mac: vec![],
+                    TsigRr { x: Shape { cls: rq.x.cls, ttl: rq.x.ttl, ..Shape::default() }, name: rq.name.clone(), alg: rq.alg.clone(), time: u64::MAX, fudge: 0, mac: vec![],
                              oid: rid, err: code, other: vec![] }
                 };
                 let obs = self.signed_obs(op, &pre, &wire, &want);
@@ -249,7 +250,7 @@ impl<'a> Run<'a> {
                     return json!({"res": "PushError"});
                 }
                 let wire = bld.finish();
-                let want = TsigRr { name: name_wire(KEYNAME_S), alg: alg_wire(&alg), time: op["now"].as_u64().unwrap(),
+                let want = TsigRr { x: Shape::default(), name: name_wire(KEYNAME_S), alg: alg_wire(&alg), time: op["now"].as_u64().unwrap(),
                                     fudge, mac: vec![], oid: id, err: 0, other: vec![] };
                 let obs = self.signed_obs(op, &pre, &wire, &want);
                 self.net.push_back(Flight { pre_len: pre.len(), wire, rep: 1, signed: true, pre, movedup: false });
@@ -263,7 +264,7 @@ impl<'a> Run<'a> {
                 let (j, n) = (op["mac"].as_u64().unwrap() as usize, op["n"].as_u64().unwrap() as usize);
                 let mac = match self.terms.get_mut("ideal").unwrap().mac(j, n) { Ok(m) => m, Err(e) => return json!({"harness": e}) };
                 self.last_full = ref_full_guess(&mut self.terms, j);
-                let rr = TsigRr { name: name_wire(KEYNAME_S), alg: alg_wire(&alg), time: op["now"].as_u64().unwrap(),
+                let rr = TsigRr { x: Shape::default(), name: name_wire(KEYNAME_S), alg: alg_wire(&alg), time: op["now"].as_u64().unwrap(),
                                   fudge: op["fudge"].as_u64().unwrap() as u16, mac, oid: id,
                                   err: op["err"].as_u64().unwrap_or(0) as u16, other: bytes_of(&op["other"]) };
                 let mut wire = pre.clone();
